@@ -613,15 +613,18 @@ static void seq_mode(long count) {
   static unsigned char x[8192], y[8192];
   { /* small and degenerate items followed by paddings of several lengths: nothing about x may depend on how much follows */
     static const char* edge[] = {"00", "17", "1818", "20", "40", "60", "80", "a0", "9fff", "bfff", "5fff", "7fff", "f6", "f4", "c000", "d81820", "8100", "9f00ff", "a10000", "bf0000ff",
-                                 "5f40ff", "7f60ff", "8180", "9f9fffff", "c19fff", "bf009fffff", "f97c00", "fa00000000", "3a00010000", "1b0000000000000000", "5f4100ff", "829fffbfff"};
+                                 "5f40ff", "7f60ff", "8180", "9f9fffff", "c19fff", "bf009fffff", "f97c00", "fa00000000", "3a00010000", "1b0000000000000000", "5f4100ff", "829fffbfff",
+                                 /* text ending inside a multi-byte sequence: what follows the item must not complete it */
+                                 "61c3", "62e282", "6361e282", "63f09f98", "62f09f", "61f0", "61e2", "7f62e282ff", "62c3a9", "8161c3", "a161c3626182"};
     static const size_t pads[] = {1, 2, 3, 4, 7, 8, 9, 10, 15, 16, 17, 40, 100};
     for (size_t e = 0; e < sizeof edge / sizeof *edge; e++) {
       size_t xn = 0;
       for (const char* p = edge[e]; p[0] && p[1]; p += 2) { unsigned v; sscanf(p, "%2x", &v); x[xn++] = (unsigned char)v; }
       suffix_case(x, xn, y, 0);
       for (size_t pi = 0; pi < sizeof pads / sizeof *pads; pi++)
-        for (int fill = 0; fill < 3; fill++) {
-          memset(y, fill == 0 ? 0x00 : fill == 1 ? 0xff : 'x', pads[pi]);
+        for (int fill = 0; fill < 6; fill++) {
+          static const unsigned char fills[] = {0x00, 0xff, 'x', 0x80, 0xbf, 0x98};
+          memset(y, fills[fill], pads[pi]);
           suffix_case(x, xn, y, pads[pi]);
         }
       if (e % 4 == 0) {
